@@ -95,7 +95,8 @@ class Binary(Sub):
             st.builds(lambda v: {'kind': 'scalar', 'value': v}, val),
             st.builds(lambda v: {'kind': 'npscalar', 'value': float(v)}, val),
             st.builds(lambda k, s: {'kind': k, 'seed': s}, st.sampled_from(['arr-rr', 'arr-l11', 'arr-full']), seed),
-            st.builds(lambda k, s, p: {'kind': k, 'seed': s, 'space': p}, st.sampled_from(['ma-same', 'ma-one', 'ma-same']), seed, sp))
+            st.builds(lambda k, s, p: {'kind': k, 'seed': s, 'space': p}, st.sampled_from(['ma-same', 'ma-one', 'ma-same']), seed, sp),
+            st.just({'kind': 'ma-self'}))
         return st.fixed_dictionaries({'rank': st.integers(1, 5), 'length': st.integers(1, 64), 'seed': seed, 'space': sp,
                                       'op': st.sampled_from(sorted(OPS)), 'inplace': st.booleans(), 'other': opd})
 
@@ -107,7 +108,10 @@ class Binary(Sub):
         A = make(spec['seed'], L, R, spec['space'])
         A0 = A.data.copy()
         bufA = A.data
-        B, Barr, Bbuf = operand(spec['other'], L, R)
+        if spec['other']['kind'] == 'ma-self':
+            B, Barr, Bbuf = A, A0.copy(), None          # A op A, A op= A: the right operand is the left one
+        else:
+            B, Barr, Bbuf = operand(spec['other'], L, R)
         B0 = None if Bbuf is None else Bbuf.copy()
         ospace = spec['other'].get('space')
         fn = (IOPS if spec['inplace'] else OPS)[spec['op']]
@@ -201,7 +205,8 @@ class DotInvert(Sub):
         seed = st.integers(0, 2 ** 31 - 1)
         return st.fixed_dictionaries({'rank': st.integers(1, 5), 'length': st.integers(1, 64), 'seedA': seed, 'seedB': seed,
                                       'space': st.sampled_from(SPACES), 'how': st.sampled_from(['dot', 'dot-inplace', 'matmul', 'imatmul']),
-                                      'inv_inplace': st.booleans(), 'dom': specs.fl(1.5, 6.0), 'scale': specs.logfloat(-3, 3)})
+                                      'inv_inplace': st.booleans(), 'dom': specs.fl(1.5, 6.0), 'scale': specs.logfloat(-3, 3),
+                                      'right': st.sampled_from(['other', 'other', 'other', 'self', 'same-buffer'])})
 
     def check(self, spec):
         P = target()
@@ -210,6 +215,14 @@ class DotInvert(Sub):
         L, R = spec['length'], spec['rank']
         A = make(spec['seedA'], L, R, spec['space'])
         B = make(spec['seedB'], L, R, spec['space'])
+        right = spec.get('right', 'other')
+        if right == 'self':
+            B = A                         # A.dot(A), A @= A
+        elif right == 'same-buffer':
+            B = P.MatrixArray(length=L, rank=R, data=A.data, space=A.space)     # a second MatrixArray on the same ndarray
+            if not np.shares_memory(B.data, A.data):
+                right = 'other'
+        aliased = right != 'other'
         A0, B0 = A.data.copy(), B.data.copy()
         how = spec['how']
         if how == 'dot':
@@ -227,7 +240,7 @@ class DotInvert(Sub):
             bound[l] = np.abs(A0[l]) @ np.abs(B0[l])
         if res.data.shape != exp.shape or np.any(np.abs(res.data - exp) > 8 * R * EPS * bound):
             out.fail(sig + 'dot-value/' + how, 'dot result differs from per-matrix A[l] @ B[l] (order of factors / index contraction)')
-        if not np.array_equal(B.data, B0):
+        if not aliased and not np.array_equal(B.data, B0):
             out.fail(sig + 'right-operand-modified', 'dot modified its right operand')
         if how in ('dot-inplace', 'imatmul'):
             if res is not A or not np.array_equal(A.data, res.data):
@@ -266,7 +279,7 @@ class DotInvert(Sub):
             if np.any(np.abs(I.data - eye) > 64 * EPS * 10 * R * R):
                 out.fail(sig + 'invert-identity', 'A.dot(A.invert()) is not the identity')
         out.nontrivial = R >= 2 and L >= 2
-        out.label('how=' + how, 'rank=%d' % R)
+        out.label('how=' + how, 'rank=%d' % R, 'right=' + right)
         return out
 
 
